@@ -466,10 +466,15 @@ def h_transitive_sources():
                   z3.BoolVal(out == [e1, e2] and calls["out"][0] is r.fields["target"]), detail=repr(out))
         ctx.check(f"{R}.source_incoming_relations_with_same_descriptor_type::all-matching-edges-entering-the-source",
                   z3.BoolVal(inc == [e2] and calls["in"][0] is r.fields["source"]), detail=repr(inc))
-        same = vm.alloc(cls(vm, PDR, R), {"wrapped_field": W.field("Trans", "x")}, tag="same-class-edge")
-        other = vm.alloc(cls(vm, PDR, R), {"wrapped_field": W.field("Mid", "y")}, tag="other-class-edge")
-        sel = all(vm.truth(vm.call(c[1], [same], {})) is True and vm.truth(vm.call(c[1], [other], {})) is False for c in calls.values())
-        ctx.check(f"{R}.infer_transitive_relations::only-edges-of-the-same-descriptor-class-are-combined", z3.BoolVal(sel and len(calls) == 2))
+        # every edge of the same descriptor class takes part -- asserted or inferred (the closure is over derived facts too: an
+        # inferred edge may have been derived by ANOTHER rule, e.g. from a sub-property, and is then nobody's composition) -- and
+        # no edge of another class
+        sel = len(calls) == 2
+        for inferred in (False, True):
+            same = vm.alloc(cls(vm, PDR, R), {"wrapped_field": W.field("Trans", "x"), "inferred": inferred, "source": r.fields["target"], "target": r.fields["source"]}, tag="same-class-edge")
+            other = vm.alloc(cls(vm, PDR, R), {"wrapped_field": W.field("Mid", "y"), "inferred": inferred, "source": r.fields["target"], "target": r.fields["source"]}, tag="other-class-edge")
+            sel = sel and all(vm.truth(vm.call(c[1], [same], {})) is True and vm.truth(vm.call(c[1], [other], {})) is False for c in calls.values())
+        ctx.check(f"{R}.infer_transitive_relations::exactly-the-edges-of-the-same-descriptor-class-are-combined-asserted-or-inferred", z3.BoolVal(sel))
     return Harness("transitive-sources", run, spec=Spec())
 
 
@@ -562,4 +567,13 @@ def h_canary():
 
 def harnesses():
     return [h_add_to_graph(), h_base_add(), h_infer_super(), h_super_relations(), h_fields_of_superproperties(), h_inverse(), h_transitive(), h_transitive_sources(),
-            h_write_back(), h_flags(), h_composition_lemma(), h_canary()]
+            h_write_back(), h_flags(), h_composition_lemma()] + _assertions_reach_the_rules() + [h_canary()]
+
+
+def _assertions_reach_the_rules():
+    """the closure is over what the user asserted: every value written into a managed field -- by assignment (also the one the
+    dataclass constructor makes), append / add, extend / update -- is handed to add_relation_to_the_graph exactly once (C16's
+    contracts on the same real PropertyDescriptor.__set__ / monitored containers)"""
+    from . import C16
+    keep = ("list-ops-from-empty", "set-ops-from-empty", "list-assign-any-length", "set-assign-any-length", "single-valued")
+    return [h for h in C16.harnesses() if h.name in keep]
